@@ -24,13 +24,16 @@ LEVEL_TEXT = ('Partial. Proved (Coq, for every BC mask, connectivity, number of 
               'Not proved: that jax.hessian(integrate_element_from_local_field) returns those second directional derivatives (JAX autodiff) and that the real '
               'energies are twice differentiable at the state -- compared on the real code on every run (assembled K vs dense jax.hessian of the total energy, '
               'v^T K w vs forward-over-forward jvp(jvp(.)), total energy vs sum of element energies of U[conn,:], element block vs Hessian of the element energy: '
-              'plane strain / axisymmetric, single / multi block, static / Newmark). Findings F5 (pressure-projection factories were dead code) and F6 (Newmark element Hessians were evaluated at U-UPredicted) are fixed in /repo and are replayed as regressions; the static reference table of Mechanics.py is proved to resolve (C02_refs_resolve).')
+              'plane strain / axisymmetric, single / multi block, static / Newmark). Findings F5 (pressure-projection factories were dead code) and F6 (Newmark element Hessians were evaluated at U-UPredicted) are fixed in /repo and are replayed as regressions; the static reference table of Mechanics.py is proved to resolve (C02_refs_resolve). '
+              'NEW (round 4): the kinematic options through EVERY factory -- tables of all functions with a pressureProjectionDegree / mode2D parameter and of all intra-module and hook-variable calls, regenerated from the AST on every run and decided in Coq (C02_option_sites_resolve, C02_factories_pass_every_degree: each factory tests the degree only against None, never rebinds it, and reaches volume_average_J_gradient_transformation directly or by passing it unchanged to the helper; both 2D modes handled or delegated; call arities fit). '
+              'Still not proved: that the three factories build the SAME projected gradient (closure semantics) -- compared on the real code by the cross-factory stream (single-block vs multi-block on the mesh split into same-material blocks vs dynamics factory; degrees None/0/1, order >= 2, plane strain and axisymmetric; energy, state update, element stiffnesses, element Hessians minus inertia blocks). '
+              'Element batching: proved that evaluating the element-Hessian kernel a batch of ids at a time (gather, map, concatenate, truncate) equals the per-element map whenever the batches list 0..n-1 followed only by padding (C02_batched_hessians; clamped windows refuted by example) -- the specification of the stream\'s chunked reference and of any batched element map; jax.vmap / lax.map themselves and the mesh size are not modelled: covered by the large-mesh stream (1023..2380 elements straddling 1024 and 2048; every element block vs a reference computed 128 elements at a time on the same mesh, assembled sparse K v vs Hessian-vector products of the total energy; statics, Newmark, mass, multi-block).')
 TECHNIQUE = 'Coq proof over a hand-written model of the COO assembly and block scatter (shares the C14 DofManager model); exact vm_compute correspondence; K-vs-jax.hessian comparison on the real mechanics functions'
 GEN = ['Refs_Mechanics']
 TARGETS = ['model/M_C14_Dof.vo', 'model/M_C02_Assembly.vo', 'model/M_C02_Energy.vo', 'model/M_C02_MultiBlock.vo', 'proofs/L_C14.vo', 'proofs/L_C02.vo',
-           'gen/Refs_Mechanics.vo', 'proofs/L_C02_refs.vo', 'proofs/L_C02_hess.vo', 'proofs/L_C02_mb.vo']
+           'gen/Refs_Mechanics.vo', 'proofs/L_C02_refs.vo', 'proofs/L_C02_hess.vo', 'proofs/L_C02_mb.vo', 'proofs/L_C02_batch.vo']
 COQ_FILES = ['model/M_C14_Dof.v', 'model/M_C02_Assembly.v', 'model/M_C02_Energy.v', 'model/M_C02_MultiBlock.v', 'proofs/L_C14.v', 'proofs/L_C02.v',
-             'proofs/L_C02_refs.v', 'proofs/L_C02_hess.v', 'proofs/L_C02_mb.v', 'props/P_C02.v']
+             'proofs/L_C02_refs.v', 'proofs/L_C02_hess.v', 'proofs/L_C02_mb.v', 'proofs/L_C02_batch.v', 'props/P_C02.v']
 TRUSTED = ['Coq 8.16.1 kernel + vm_compute (no native_compute)',
            'hand-written model of assemble_sparse_stiffness_matrix (boolean-mask ravel order, coo_matrix duplicate summation) and of the '
            '.at[elemIds].set block loops, and of the gather semantics of FunctionSpace.evaluate_on_block / integrate_over_block; tied to the source only by the exact correspondence on seeded random integer data',
@@ -38,6 +41,7 @@ TRUSTED = ['Coq 8.16.1 kernel + vm_compute (no native_compute)',
            'model/M_C02_MultiBlock.v: the per-block loops as folds of integrate_over_block / scatter over (elemIds, material) pairs; per-element kernels (energy density, state update, element Hessian on the element own rows) are parameters, fed from the implementation in the correspondence',
            'model/M_C02_Energy.v: total energy = sum over elements of an element energy of the local field U[conn,:] (tied by the exact local-field stream and the L2 decomposition probe)',
            'Coquelicot 3.x (Derive, is_derive, locally) for the statement of second directional derivatives',
+           'tools/vlib/refs_c02.py: the AST extraction of the reference / option-site / call-arity tables (syntactic: a test is recognised as `is [not] None` only in that literal form; anything else that mentions the degree is flagged, fail closed)',
            'correspondence harness (case generators, tolerance 1e-9 * max(1, |H|_inf) for K vs H and symmetry)']
 ASSUMPTIONS = ['node ids in range, rectangular connectivity, components < number of fields (as C14)',
                'element blocks are symmetric (true for autodiff Hessians) for the symmetry / P^T K P theorems; stated as a hypothesis',
@@ -48,6 +52,8 @@ RULE = ('mb: integer function-space arrays, 1..3 polynomial integer materials, b
         'through the real DofManager + assemble_sparse_stiffness_matrix vs the model (exact); random .at[ids].set block loops vs the model. '
         'L2: small distorted structured meshes (order 1..2, shuffled element numbering), random BC node sets, random displacement; materials '
         'neo-Hookean, linear elastic, J2 (state produced by a previous load step); plane strain / axisymmetric; single / multi block; static / Newmark. '
+        'crossfactory: the same distorted order-2/3 mesh, material, mode and pressureProjectionDegree in {None,0,1} through create_mechanics_functions (reference), create_multi_block_mechanics_functions (mesh split into 2..3 blocks of that material) and create_dynamics_functions; non-trivial = the projection changes the energy (logged). '
+        'large: distorted structured meshes truncated to an exact element count (quick: one count in 1025..1200; thorough: 1023, 1024, 1025, ~2049, >2200 in two blocks), affine + mesh-size-proportional random displacement; element blocks vs chunked per-element references and K v vs d/dt grad E(Uu+tv) along 2 directions. '
         'non-trivial = has both constrained and unknown dofs; distinct = distinct configurations')
 IMPORTS = ['From OV.model Require Import M_C14_Dof M_C02_Assembly.']
 MB_IMPORTS = ['From OV.model Require Import M_C14_Dof M_C02_Assembly M_C02_MultiBlock.']
@@ -527,6 +533,35 @@ def gen_l2(ctx):
         for fac in ('create_mechanics_functions', 'create_dynamics_functions', 'create_multi_block_mechanics_functions'):
             mk('pressure', factory=fac, degree=0, Nx=2, Ny=2)
             mk('pressure', factory=fac, degree=1, Nx=2, Ny=2)
+    # ---- round 4 streams; their own generator so that the configurations above are unchanged
+    r2 = ctx.rng('l2x')
+
+    def mk2(kind, **kw):
+        c = dict(kind=kind, Nx=2, Ny=2, order=1, mode='plane strain', material='neohookean', seed=r2.randrange(1 << 30), amp=0.03)
+        c.update(kw)
+        cfgs.append(c)
+
+    # cross-factory: same mesh / material / mode / degree through the single-block, multi-block (mesh split into same-material
+    # blocks) and dynamics factories; order >= 2 so that the projection is not the identity.  Degree 0 always (the falsy one).
+    mk2('crossfactory', degree=0, nblocks=2, Nx=2, Ny=3, order=2, material='neohookean')
+    mk2('crossfactory', degree=r2.choice([None, 1]), nblocks=2, order=2, mode=r2.choice(['plane strain', 'axisymmetric']),
+        material=r2.choice(['neohookean', 'linear', 'neohookean_coupled']))
+    # large meshes: element counts just above 1024 that are not a multiple of 1024 (statics, Newmark and mass on the same mesh)
+    mk2('large', which=['static', 'newmark', 'mass'], Nx=25, Ny=26, nE=r2.randrange(1025, 1201), qdeg=2, amp=0.05, hscale=True,
+        material=r2.choice(['neohookean', 'linear']))
+    if ctx.tier != 'quick':
+        for deg in (None, 0, 1):
+            mk2('crossfactory', degree=deg, nblocks=r2.choice([2, 3]), Nx=2, Ny=3, order=r2.choice([2, 2, 3]), mode='plane strain',
+                material=r2.choice(['neohookean', 'linear', 'neohookean_coupled']))
+            mk2('crossfactory', degree=deg, nblocks=2, order=2, mode='axisymmetric', material=r2.choice(['neohookean', 'linear']))
+        mk2('crossfactory', degree=0, nblocks=2, Nx=2, Ny=3, order=2, material='j2')          # internal-variable update too
+        for nE in (1023, 1024, 1025):
+            mk2('large', which=[r2.choice(['static', 'newmark']), 'mass'][:r2.choice([1, 2])], Nx=25, Ny=26, nE=nE, qdeg=r2.choice([1, 2]), amp=0.05,
+                hscale=True, material=r2.choice(['neohookean', 'linear']), mode=r2.choice(['plane strain', 'axisymmetric']))
+        mk2('large', which=['static', 'newmark', 'mass'], Nx=33, Ny=34, nE=r2.choice([2047, 2049, r2.randrange(2050, 2113)]), qdeg=2, amp=0.05, hscale=True)
+        mk2('large', which=['multiblock', 'static'], Nx=35, Ny=36, nE=r2.randrange(2200, 2381), nblocks=2, qdeg=1, amp=0.05, hscale=True,
+            blockorder=r2.choice(['shuffled', 'sorted']))
+        mk2('large', which=['static'], Nx=25, Ny=26, nE=r2.randrange(1025, 1201), qdeg=2, amp=0.05, hscale=True, material='j2')
     return cfgs
 
 
@@ -558,6 +593,11 @@ def setup_problem(cfg):
     perm = list(range(conns.shape[0]))
     r.shuffle(perm)                                      # arbitrary element numbering
     conns = conns[perm]
+    if cfg.get('nE'):
+        # large-mesh stream: an exact element count (the first nE elements of the shuffled numbering; a node that loses all its
+        # elements stays in the mesh with zero rows in both K and the Hessian)
+        assert conns.shape[0] >= cfg['nE'], 'mesh too small for the requested element count'
+        conns = conns[:cfg['nE']]
     conns = onp.array([list(onp.roll(row, r.randrange(3))) for row in conns])     # arbitrary (orientation-preserving) local numbering
     nE = conns.shape[0]
     blocks = {'block_0': onp.arange(nE)}
@@ -569,7 +609,7 @@ def setup_problem(cfg):
     s0 = sorted(r.sample(nodes, r.randrange(1, max(2, nNodes // 2))))
     s1 = sorted(r.sample(nodes, r.randrange(1, max(2, nNodes // 2))))
     nodeSets = {'s0': onp.array(s0, dtype=int), 's1': onp.array(s1 + s1[:1], dtype=int)}
-    if cfg['kind'] == 'multiblock':
+    if cfg['kind'] == 'multiblock' or cfg.get('nblocks'):
         ids = list(range(nE))
         r.shuffle(ids)
         k = cfg['nblocks']
@@ -608,6 +648,16 @@ def setup_problem(cfg):
             W = 0.5 * W
         return 0.0 * W
 
+    if cfg.get('hscale'):
+        # large meshes: a smooth (affine) deformation plus nodal noise proportional to the mesh size, so that every element is
+        # deformed differently and none is inverted
+        X = onp.asarray(mesh.coords)
+        h = min(1.0 / (Nx - 1), 1.0 / (Ny - 1))
+        G = onp.array([[0.10, -0.06], [0.04, 0.07]])
+        U = admissible(np.array(X @ G.T - onp.array([0.05, 0.0]) + cfg['amp'] * h * rs.uniform(-1.0, 1.0, X.shape)))
+        U0 = admissible(np.array(2 * (X @ G.T) + cfg['amp'] * h * rs.uniform(-1.0, 1.0, X.shape)))
+        UP = admissible(np.array(onp.asarray(U) + 0.5 * cfg['amp'] * h * rs.uniform(-1.0, 1.0, X.shape)))
+        return mesh, fs, dm, U, U0, UP
     U = admissible(np.array(cfg['amp'] * rs.standard_normal(mesh.coords.shape)))
     U0 = admissible(np.array(3 * cfg['amp'] * rs.standard_normal(mesh.coords.shape)))
     UP = admissible(np.array(cfg['amp'] * rs.standard_normal(mesh.coords.shape)))
@@ -686,6 +736,181 @@ def _decomposition(name, fs, mat, mode, U, q, dt, Etot, Ke, bad, info):
         bad.append('%s: element block %d differs from the Hessian of the element energy w.r.t. the local field U[conn,:] by %.3g' % (name, e, d))
 
 
+def _large(cfg, mesh, fs, dm, U, U0, UP, mat, bad, info):
+    """meshes with more than 1024 elements (element counts straddling powers of two).  A dense Hessian is out of reach, so
+    (a) every element block returned by the factory is compared with a reference block computed from the element's own rows, 128
+    elements at a time (vmap of the public Mechanics.compute_element_stiffness_from_global_fields over explicit index chunks of
+    the SAME mesh), and (b) the assembled sparse matrix is compared with Hessian-vector products of the total energy,
+    H v = d/dt grad E(Uu + t v), along random directions (forward-over-reverse on the total energy: no element Hessians involved)"""
+    import numpy as onp
+    import jax
+    import jax.numpy as np
+    from optimism import Mechanics, SparseMatrixAssembler
+    nE = int(mesh.conns.shape[0])
+    Uu, Ubc = dm.get_unknown_values(U), dm.get_bc_values(U)
+    rs = onp.random.RandomState((cfg['seed'] ^ 0x1a26e) % (1 << 31))
+    modify = Mechanics.parse_2D_to_3D_gradient_transformation(cfg['mode'])
+    chunk = 128
+    ids_all = onp.arange(nE)
+    pad = (-nE) % chunk
+    ids_pad = onp.concatenate([ids_all, onp.full(pad, nE - 1, dtype=int)]).reshape(-1, chunk)
+
+    def reference_blocks(L, Uf, q, dtv):
+        f = jax.jit(lambda ids: jax.vmap(Mechanics.compute_element_stiffness_from_global_fields, (None, None, 0, None, 0, 0, 0, 0, None, None))(
+            Uf, fs.mesh.coords, q[ids], dtv, fs.mesh.conns[ids], fs.shapes[ids], fs.shapeGrads[ids], fs.vols[ids], L, modify))
+        return onp.concatenate([onp.asarray(f(np.array(row))) for row in ids_pad])[:nE]
+
+    def compare(name, Ke, Kref, energy_of_Uu, x0):
+        Ke, Kref = onp.asarray(Ke), onp.asarray(Kref)
+        if Ke.shape != Kref.shape:
+            bad.append('%s (%d elements): element blocks have shape %s, expected %s' % (name, nE, Ke.shape, Kref.shape))
+            return
+        scale = float(onp.abs(Kref).max()) or 1.0               # relative to the largest reference entry (mass blocks are ~1e-4)
+        de = onp.abs(Ke - Kref).reshape(nE, -1).max(axis=1)
+        wrong = onp.flatnonzero(~(de <= RTOL * scale))
+        info['max|K_e-ref_e| ' + name] = float(de.max())
+        if wrong.size:
+            bad.append('%s (%d elements): %d element blocks differ from the Hessian of their element energy (computed 128 elements at a time on '
+                       'the same mesh): elements %s%s, worst |diff| %.3g on a scale of %.3g'
+                       % (name, nE, wrong.size, wrong[:6].tolist(), '...' if wrong.size > 6 else '', float(de.max()), scale))
+        K = SparseMatrixAssembler.assemble_sparse_stiffness_matrix(Ke, mesh.conns, dm).tocsr()
+        n = K.shape[0]
+        dsym = float(abs(K - K.T).max()) if K.nnz else 0.0
+        info['max|K-K^T| ' + name] = dsym
+        if dsym > RTOL * scale:
+            bad.append('%s (%d elements): assembled matrix not symmetric: max|K-K^T| = %.3g' % (name, nE, dsym))
+        g = jax.jit(lambda x, v: jax.jvp(jax.grad(energy_of_Uu), (x,), (v,))[1])
+        worst = 0.0
+        for k in range(cfg.get('ndir', 2)):
+            v = rs.standard_normal(n)
+            if k == 1:
+                v = onp.sign(v)                                       # every column with weight +-1
+            Hv = onp.asarray(g(x0, np.array(v)))
+            Kv = K @ v
+            d = float(onp.abs(Hv - Kv).max())
+            worst = max(worst, d)
+            tol = RTOL * scale * 30 * float(onp.abs(v).max())          # a row couples a dof to at most a few dozen others
+            if not d <= tol:
+                i = int(onp.argmax(onp.abs(Hv - Kv)))
+                bad.append('%s (%d elements, %d unknowns): assembled matrix differs from the Hessian of the energy: (K v)[%d] = %.12g but '
+                           'd/dt grad E(Uu + t v)[%d] = %.12g (|diff| %.3g > %.3g; %d rows differ)'
+                           % (name, nE, n, i, float(Kv[i]), i, float(Hv[i]), d, tol, int((onp.abs(Hv - Kv) > tol).sum())))
+                break
+        info['max|Kv-Hv| ' + name] = worst
+
+    dt = cfg.get('dt', 0.1)
+    for which in cfg['which']:
+        if which == 'static':
+            fns = Mechanics.create_mechanics_functions(fs, cfg['mode'], mat)
+            q = fns.compute_initial_state()
+            if cfg['material'] == 'j2':
+                q = fns.compute_updated_internal_variables(U0, q, dt)
+            L = Mechanics.strain_energy_density_to_lagrangian_density(mat.compute_energy_density)
+            compare('static', fns.compute_element_stiffnesses(U, q, dt), reference_blocks(L, U, q, dt),
+                    lambda x: fns.compute_strain_energy(dm.create_field(x, Ubc), q, dt), Uu)
+        elif which == 'multiblock':
+            fns = Mechanics.create_multi_block_mechanics_functions(fs, 'plane strain', {k: mat for k in mesh.blocks})
+            q = fns.compute_initial_state()
+            info['block sizes'] = [int(v.shape[0]) for v in mesh.blocks.values()]
+            L = Mechanics.strain_energy_density_to_lagrangian_density(mat.compute_energy_density)
+            compare('multi-block', fns.compute_element_stiffnesses(U, q, dt), reference_blocks(L, U, q, dt),
+                    lambda x: fns.compute_strain_energy(dm.create_field(x, Ubc), q, dt), Uu)
+        elif which == 'newmark':
+            beta = cfg.get('beta', 0.3025)
+            dyn = Mechanics.create_dynamics_functions(fs, cfg['mode'], mat, Mechanics.NewmarkParameters(gamma=0.6, beta=beta))
+            q = dyn.compute_initial_state()
+            rho = mat.density
+
+            def L(W, gradW, Q, X, dtime):
+                return Mechanics.kinetic_energy_density(W, rho) / (beta * dtime ** 2) + mat.compute_energy_density(gradW, Q, dtime)
+            compare('Newmark', dyn.compute_element_hessians(U, UP, q, dt), reference_blocks(L, U, q, dt),
+                    lambda x: dyn.compute_algorithmic_energy(dm.create_field(x, Ubc), UP, q, dt), Uu)
+        elif which == 'mass':
+            dyn = Mechanics.create_dynamics_functions(fs, cfg['mode'], mat, Mechanics.NewmarkParameters())
+            rho = mat.density
+            q0 = np.zeros((nE, fs.vols.shape[1]))
+
+            def L(V, gradV, Q, X, dtime):
+                return Mechanics.kinetic_energy_density(V, rho)
+            compare('mass', dyn.compute_element_masses(), reference_blocks(L, np.zeros_like(U), q0, 0.0),
+                    lambda x: dyn.compute_output_kinetic_energy(dm.create_field(x, dm.get_bc_values(UP))), dm.get_unknown_values(UP))
+
+
+def _crossfactory(cfg, mesh, fs, dm, U, U0, UP, mat, bad, info):
+    """the same mesh, material, kinematic mode and pressure-projection degree (None, 0, 1) through EVERY factory: the single-block
+    factory on the unsplit mesh is the reference; the multi-block factory (mesh split into blocks of that same material; plane strain,
+    the only mode it accepts) must give the same energy, internal-variable update and element stiffnesses, and so must the dynamics
+    factory (compute_output_strain_energy, compute_updated_internal_variables, and compute_element_hessians minus the inertia blocks
+    compute_element_masses / (beta dt^2)).  A factory that drops or alters the option is consistent with itself (its K is the Hessian
+    of ITS energy) and is only seen here."""
+    import numpy as onp
+    import jax.numpy as np
+    from optimism import Mechanics, SparseMatrixAssembler
+    deg, mode, dt, beta = cfg['degree'], cfg['mode'], 0.1, cfg.get('beta', 0.25)
+    tag = '%s, pressureProjectionDegree=%s, order %d, %s' % (mode, deg, cfg['order'], cfg['material'])
+    j2 = cfg['material'] == 'j2'
+    single = Mechanics.create_mechanics_functions(fs, mode, mat, pressureProjectionDegree=deg)
+    q = single.compute_initial_state()
+    q1 = single.compute_updated_internal_variables(U0, q, dt) if j2 else q
+    Es = float(single.compute_strain_energy(U, q1, dt))
+    Ks = onp.asarray(single.compute_element_stiffnesses(U, q1, dt))
+    if deg is not None:
+        # non-triviality of the input: the projection must change the energy (it is the identity for affine displacements on
+        # straight-sided elements, which is why order >= 2 is used)
+        plain = Mechanics.create_mechanics_functions(fs, mode, mat)
+        E0 = float(plain.compute_strain_energy(U, q1, dt))
+        info['|E(projected)-E(plain)|/|E|'] = abs(Es - E0) / max(abs(E0), 1e-300)
+    kscale = max(1.0, float(onp.abs(Ks).max()))
+
+    def same(name, what, a, b, tol, scale):
+        a, b = onp.asarray(a), onp.asarray(b)
+        if a.shape != b.shape:
+            bad.append('[%s] %s: %s has shape %s, the single-block factory gives %s' % (tag, name, what, a.shape, b.shape))
+            return
+        d = float(onp.abs(a - b).max()) if a.size else 0.0
+        info['max|diff| %s %s' % (name, what)] = d
+        if not d <= tol * scale:
+            extra = ''
+            if a.ndim >= 2:
+                e = int(onp.argmax(onp.abs(a - b).reshape(a.shape[0], -1).max(axis=1)))
+                extra = ' (worst: %s %d)' % ('element' if a.ndim > 2 else 'row', e)
+            bad.append('[%s] %s: %s differs from the single-block factory on the same mesh by %.3g on a scale of %.3g%s'
+                       % (tag, name, what, d, scale, extra))
+
+    if mode == 'plane strain':
+        multi = Mechanics.create_multi_block_mechanics_functions(fs, mode, {k: mat for k in mesh.blocks}, pressureProjectionDegree=deg)
+        info['blocks'] = LAST.get('blocks')
+        name = 'multi-block factory (%d blocks of the same material)' % len(mesh.blocks)
+        qm = multi.compute_initial_state()
+        if j2:
+            qm1 = multi.compute_updated_internal_variables(U0, qm, dt)
+            same(name, 'internal-variable update', qm1, q1, 1e-12, max(1.0, float(onp.abs(onp.asarray(q1)).max())))
+        Em = float(multi.compute_strain_energy(U, q1, dt))
+        info['energies single/multi'] = [Es, Em]
+        if not abs(Es - Em) <= 1e-12 * max(1.0, abs(Es)):
+            bad.append('[%s] %s: strain energy %.15g differs from the single-block energy %.15g (rel %.3g)' % (tag, name, Em, Es, abs(Em - Es) / max(abs(Es), 1e-300)))
+        Km = multi.compute_element_stiffnesses(U, q1, dt)
+        same(name, 'element stiffnesses', Km, Ks, 1e-11, kscale)
+        if onp.asarray(Km).shape == Ks.shape:
+            asm = lambda Ke: SparseMatrixAssembler.assemble_sparse_stiffness_matrix(Ke, mesh.conns, dm).toarray()
+            same(name, 'assembled stiffness', asm(Km), asm(Ks), 1e-11, kscale)
+    dyn = Mechanics.create_dynamics_functions(fs, mode, mat, Mechanics.NewmarkParameters(gamma=0.5, beta=beta), pressureProjectionDegree=deg)
+    name = 'dynamics factory'
+    if j2:
+        same(name, 'internal-variable update', dyn.compute_updated_internal_variables(U0, dyn.compute_initial_state(), dt), q1, 1e-12,
+             max(1.0, float(onp.abs(onp.asarray(q1)).max())))
+    Ed = float(dyn.compute_output_strain_energy(U, q1, dt))
+    info['energies single/dynamics'] = [Es, Ed]
+    if not abs(Es - Ed) <= 1e-12 * max(1.0, abs(Es)):
+        bad.append('[%s] %s: compute_output_strain_energy %.15g differs from the single-block energy %.15g (rel %.3g)' % (tag, name, Ed, Es, abs(Ed - Es) / max(abs(Es), 1e-300)))
+    Kd = onp.asarray(dyn.compute_element_hessians(U, UP, q1, dt))
+    Me = onp.asarray(dyn.compute_element_masses())
+    if Kd.shape == Me.shape:
+        same(name, 'element Hessians minus inertia blocks M_e/(beta dt^2)', Kd - Me / (beta * dt ** 2), Ks, 1e-10, max(kscale, float(onp.abs(Kd).max())))
+    else:
+        bad.append('[%s] %s: element Hessians %s and element masses %s have different shapes' % (tag, name, Kd.shape, Me.shape))
+
+
 def run_l2(cfg):
     """-> (list of violated clauses, info dict).  Exceptions of the implementation on valid input are violations too."""
     import numpy as onp
@@ -751,6 +976,10 @@ def run_l2(cfg):
             K1 = asm(fns.compute_element_stiffnesses(U, q, dt))
             if float(onp.abs(K1 - K).max()) > 0:
                 bad.append('re-assembling with the first DofManager after using a second one gives a different matrix')
+    elif kind == 'crossfactory':
+        _crossfactory(cfg, mesh, fs, dm, U, U0, UP, mat, bad, info)
+    elif kind == 'large':
+        _large(cfg, mesh, fs, dm, U, U0, UP, mat, bad, info)
     elif kind == 'multiblock':
         single = Mechanics.create_mechanics_functions(fs, 'plane strain', mat)
         multi = Mechanics.create_multi_block_mechanics_functions(fs, 'plane strain', {k: mat for k in mesh.blocks})
@@ -830,6 +1059,29 @@ def static_refs(ctx, model_ok):
     if not flag_ok:
         ctx.fail('conclusion', 'Mechanics.py is not statically well-formed (C02_refs_resolve is refuted on this tree): ' + '; '.join(broken)[:900],
                  case=dict(layer='refs', broken=keys), concrete=True)
+    # ---- round 4: option sites (pressureProjectionDegree / mode2D through every factory, call arities)
+    sbroken = (['%s (line %d): %d of %d truth tests on pressureProjectionDegree are not `is [not] None`%s%s'
+                % (f, ln, nt - nn, nt, ', the parameter is rebound' if rb else '', '' if re else ', volume_average_J_gradient_transformation is not reached')
+                for (f, ln, nt, nn, rb, re, di) in t['pp_sites'] if not (nt == nn and rb == 0 and re)]
+               + ['%s (line %d) does not handle both 2D modes (plane strain: %s, axisymmetric: %s, delegated: %s)' % (f, ln, p_, a, d)
+                  for (f, ln, p_, a, d) in t['mode_sites'] if not (d or (p_ and a))]
+               + ['%s calls %s (line %d) with %d arguments, accepted: %d..%d%s' % (f, g, ln, n, lo, hi, '' if k else ' (bad keyword)')
+                  for (f, g, ln, n, lo, hi, k) in t['call_arities'] if not (lo <= n <= hi and k)])
+    ctx.cov['mechanics_option_sites'] = dict(pressure_projection_sites=[list(x) for x in t['pp_sites']], mode_sites=[list(x) for x in t['mode_sites']],
+                                             calls=len(t['call_arities']), broken=sbroken)
+    sites_ok = not sbroken
+    if model_ok:
+        z = C.coq_eval(['From OV.gen Require Import Refs_Mechanics.'], ['(if sites_all_ok then 1 else 0) :: map Z.of_nat site_broken_counts'], 'C02sites')[0]
+        ctx.cov['mechanics_option_sites']['coq_sites_all_ok'] = bool(z[0])
+        ctx.cov['mechanics_option_sites']['coq_broken_counts'] = z[1:]
+        sites_ok = bool(z[0])
+        if sum(z[1:]) != len(sbroken):
+            ctx.fail('correspondence', 'Coq option-site table reports %s broken items, the extraction %d' % (z[1:], len(sbroken)), case=dict(layer='sites', broken=sbroken))
+    ctx.count('evaluations')
+    if not sites_ok:
+        # not an input by itself: the cross-factory stream (kind 'crossfactory') is what turns it into a concrete failing input
+        ctx.fail('static tie', 'option sites of Mechanics.py (C02_option_sites_resolve is refuted on this tree): ' + '; '.join(sbroken)[:900],
+                 case=dict(layer='sites', broken=sbroken))
 
 
 F5_STATIC = {'Interpolants.make_master_tri_element', 'Interpolants.compute_shapes_on_tri',
@@ -923,6 +1175,16 @@ def correspondence(ctx, model_ok, l2_cfgs=None, do_l1=True):
         except Exception as ex:
             bad, info = ['mechanics functions raised %s: %s on a valid configuration' % (type(ex).__name__, str(ex)[:200])], {}
         hist[cfg['kind']] = hist.get(cfg['kind'], 0) + 1
+        if cfg['kind'] == 'crossfactory':
+            ctx.count('cross_factory_cases')
+            ctx.count('cross_factory_degree_%s' % cfg['degree'])
+            if info.get('|E(projected)-E(plain)|/|E|', 0.0) > 1e-6:
+                ctx.count('cross_factory_cases_where_projection_changes_energy')
+        if cfg['kind'] == 'large':
+            ctx.count('large_mesh_cases')
+            ne = info.get('nElements', 0)
+            ctx.count('large_mesh_cases_above_1024_elements_not_multiple_of_1024', 1 if (ne > 1024 and ne % 1024) else 0)
+            ctx.cov.setdefault('large_mesh_element_counts', []).append(ne)
         distinct.add(('l2', json.dumps(cfg, sort_keys=True)))
         ctx.sample(dict(cfg={k: cfg[k] for k in cfg if k != 'seed'}, info=info), limit=8)
         for b in bad:
@@ -1046,6 +1308,13 @@ def replay(ctx, path):
         t = refs_c02.table(C.REPO)
         now = [r for r in t['attr_refs'] if not r[3]] + t['free'] + [h for h in t['hooks'] if h[2] != h[3]]
         print('broken references in Mechanics.py now:', now or 'none')
+        return 1 if now else 0
+    if case.get('layer') == 'sites':
+        from vlib import refs_c02
+        t = refs_c02.table(C.REPO)
+        now = ([x for x in t['pp_sites'] if not (x[2] == x[3] and x[4] == 0 and x[5])] + [x for x in t['mode_sites'] if not (x[4] or (x[2] and x[3]))]
+               + [x for x in t['call_arities'] if not (x[4] <= x[3] <= x[5] and x[6])])
+        print('broken option sites in Mechanics.py now:', now or 'none')
         return 1 if now else 0
     if case.get('layer') == 'l2':
         try:
